@@ -9,3 +9,4 @@ def check(rep, tier):
     rep.run(core_make.run, rep, tier)
     from contracts import programs_exact
     rep.run(programs_exact.run_ops, rep)
+    rep.run(diffops.run_index_algebra, rep, tier)
